@@ -559,6 +559,40 @@ class VmWatch:
         return False
 
 
+class CpuBudget:
+    """CPU time of this process spent inside the block (ITIMER_VIRTUAL): the backstop for work that happens outside the
+    interpreter's line events - a regular expression that backtracks, a big-number operation - where neither the line nor
+    the KDF counter moves.  Raises BudgetExceeded from the signal handler (C loops that poll for signals, like the regex
+    engine, are interrupted; anything else ends at the per-case timeout as a harness error).  The limit is seconds of CPU,
+    three orders of magnitude above a normal call, so the verdict does not depend on machine load."""
+
+    def __init__(self, seconds: float):
+        self.seconds = seconds
+        self.fired = False
+
+    def __enter__(self):
+        import signal
+        import threading
+
+        self._active = threading.current_thread() is threading.main_thread()
+        if self._active:
+            def on_alarm(signum, frame):
+                self.fired = True
+                raise BudgetExceeded(f"more than {self.seconds} s of CPU time in one call")
+
+            self._old = signal.signal(signal.SIGVTALRM, on_alarm)
+            signal.setitimer(signal.ITIMER_VIRTUAL, self.seconds)
+        return self
+
+    def __exit__(self, *a):
+        if self._active:
+            import signal
+
+            signal.setitimer(signal.ITIMER_VIRTUAL, 0)
+            signal.signal(signal.SIGVTALRM, self._old)
+        return False
+
+
 class LineBudget:
     """Counts interpreter line events inside dpapi_ng frames only."""
 
